@@ -496,13 +496,17 @@ def step_clean(proj, patterns=(), all_=False, force=True, answer=None):
             "same": semantic_state(pre) == semantic_state(post), "calls": []}
 
 
-def step_cancel(proj, patterns=(), force=True, answer=None, fail_nth=None):
+def step_cancel(proj, patterns=(), force=True, answer=None, fail_nth=None, fail_kind="exit1"):
+    """fail_kind: "exit1" (non-zero exit) or "stderr_error" (exit 0 with an `error:` line — for `scancel --verbose` after the
+    line that announces the job)"""
     pre = proj.observe()
 
     ccmd = CANCEL_CMD[proj.backend]
+    if proj.backend == "local":
+        fail_kind = "exit1"
 
     def add(st):
-        st["faults"] = [{"cmd": ccmd, "nth": st["calls"].get(ccmd, 0) + fail_nth, "kind": "exit1"}] if fail_nth else []
+        st["faults"] = [{"cmd": ccmd, "nth": st["calls"].get(ccmd, 0) + fail_nth, "kind": fail_kind}] if fail_nth else []
     proj.cluster.update(add)
     proj.cluster.clear_log()
     args = ["cancel"] + (["--force"] if force else []) + list(patterns)
@@ -513,6 +517,7 @@ def step_cancel(proj, patterns=(), force=True, answer=None, fail_nth=None):
     prompted = (not patterns) and (not force)
     return {"same": semantic_state(pre) == semantic_state(post), "calls": [e["cmd"] for e in proj.cluster.log()], "kind": "cancel", "line": line, "patterns": list(patterns), "force": force, "answer": answer, "prompted": prompted,
             "code": code, "out": out[-600:], "err": err[-400:], "cancelled_ids": [e["argv"][-1] for e in log],
+            "reported": sorted(set(re.findall(r"Target (\S+) could not be cancelled", out + err))), "pre_tracked": pre["tracked"],
             "faulted": [e["argv"][-1] for e in log if e.get("fault")], "jobs": post["jobs"], "pre_jobs": pre["jobs"],
             "other_same": (pre["files"] == post["files"] and pre["tracked"] == post["tracked"] and pre["hashes_raw"] == post["hashes_raw"])}
 
@@ -728,6 +733,17 @@ def compare(p, mline):
                     exp_ids.append(common.unhx(j))
             if sorted(p["cancelled_ids"]) != sorted(exp_ids):
                 bad.append(("C17", "cancel commands for jobs %r, model %r (patterns %r)" % (sorted(p["cancelled_ids"]), sorted(exp_ids), p["patterns"])))
+            else:
+                # "a target that cannot be cancelled — never submitted, scheduler error — is reported"
+                never = [common.unhx(e.split(":")[0]) for e in (m.get("cmds", "").split(";") if m.get("cmds") else []) if e.split(":")[1] == "-"]
+                by_id = {v: k for k, v in p.get("pre_tracked", {}).items()}
+                failed = [by_id[i] for i in p["faulted"] if i in by_id]
+                live = {j["id"] for j in p["pre_jobs"] if j["st"] in ("pending", "running")}
+                finished = [by_id[i] for i in exp_ids if i in by_id and i not in live]     # the scheduler refuses: job finished or forgotten
+                is_pool = any(c in ("cancel_task", "get_task_states") for c in p["calls"])
+                if "reported" in p and not is_pool and sorted(set(never + failed + finished)) != p["reported"]:
+                    bad.append(("C17", "targets reported as not cancellable %r; never submitted %r, already finished %r, cancel command failed for %r"
+                                % (p["reported"], sorted(never), sorted(finished), sorted(failed))))
             mjobs = {j["id"]: j["st"] for j in unjobs(m.get("jobs", ""))}
             for j in p["jobs"]:
                 exp_st = mjobs.get(j["id"])
